@@ -276,7 +276,14 @@ pub(super) fn opt_template_arg_list(p: &mut Parser) {
 // TemplateArgList ::= "<" TemplateArgDecl ( "," TemplateArgDecl )* ">"
 pub(super) fn template_arg_list(p: &mut Parser) {
     p.start_node(SyntaxKind::TemplateArgList);
-    delimited(p, T![<], T![>], T![,], template_arg_decl);
+    let mut has_decl = false;
+    delimited(p, T![<], T![>], T![,], |p| {
+        has_decl = true;
+        template_arg_decl(p);
+    });
+    if !has_decl {
+        p.error("expected at least one template argument declaration");
+    }
     p.finish_node();
 }
 
